@@ -158,7 +158,7 @@ class AbstractAxis(AbstractHasMetadata):
             matches = val  # boolean indexing, do nothing
 
         elif tol is not None: # no scalar, but tolerance parameter provided
-            matches = [locate_one(values, v, tol=tol, issorted=issorted) for v in val]
+            matches = np.array([locate_one(values, v, tol=tol, issorted=issorted) for v in val], dtype=int)
 
         else:
             matches = locate_many(values, val, issorted=issorted)
